@@ -13,8 +13,9 @@ for k in $(seq 0 $((N-1))); do
   (
     R=$ROOT/$k; mkdir -p $R/tmp $R/verif $R/repo
     rsync -a --exclude .git /verif/ $R/verif/
-    rsync -a --exclude target --exclude .git /repo/ $R/repo/
-    (cd $R/repo && git init -q . && git add -A && git -c user.email=v@v -c user.name=v commit -qm base) >/dev/null 2>&1
+    # (with /repo's history: patches that need `git apply --3way` find their base blobs)
+    rsync -a --exclude target --exclude '.git/worktrees' /repo/ $R/repo/
+    (cd $R/repo && git worktree prune && git reset -q --hard HEAD) >/dev/null 2>&1
     : > $R/verif/seeded/RESULTS.md
     unshare -m bash -c "mount --bind $R/repo /repo && mount --bind $R/verif /verif && mount --bind $R/tmp /tmp && cd /verif && SEEDS=\"\$(cat $ROOT/list.$k)\" tools/run_seeds.sh quick" > $ROOT/log.$k 2>&1
   ) &
